@@ -540,6 +540,9 @@ func (e *Env) runTask(fn func()) {
 func (e *Env) Close() {
 	if e.Cache != nil {
 		e.Cache.StopAllGoroutines()
+		// The cache's handlers reference this Env; dropping the back reference makes the *Cache
+		// unreachable from its own cleanup argument, otherwise it is never collected.
+		e.Cache = nil
 	}
 }
 
